@@ -32,7 +32,7 @@ import synkit.CRN.DAG.syncrn as _crn  # noqa: E402
 import synkit.Utils.utils as _utils  # noqa: E402
 
 from ..kernel import Sim, Violation, rng_for, derive  # noqa: E402
-from ..seams import Seams, GCControl, SimAllocator  # noqa: E402
+from ..seams import Seams, GCControl, SimAllocator, MODSTATE  # noqa: E402
 from ..executor import World, make_parallel, make_pool, TerminatedWorkerError  # noqa: E402
 from . import c14_sub  # noqa: E402
 
@@ -51,7 +51,7 @@ PROBES = [
     "reused_address_still_cached", "legit_cache_hit_possible", "eviction_ran",
     "parent_keys_shipped_to_worker", "process_pool_used", "lookalike_neighbours_in_batch",
     "second_fit_same_reactor", "nested_parallel", "crash_mid_fit",
-    "cluster_batched", "validate_parallel", "balance_parallel", "crn_parallel",
+    "cluster_batched", "validate_parallel", "validate_tautomer_sensitive_pair", "balance_parallel", "crn_parallel",
 ]
 REAL = ["synkit.Synthesis.Reactor.batch_reactor (BatchReactor, _RuleApplier, _apply_rule_raw)",
         "synkit.Synthesis.Reactor.syn_reactor.SynReactor and everything beneath (matcher, ITS gluing, RDKit)",
@@ -95,6 +95,7 @@ def corpus() -> Dict[str, Any]:
 def warm() -> None:
     corpus()
     c14_sub.warm()
+    MODSTATE.scan()
 
 
 MODES = {"explicit": (True, False), "plain": (False, False), "implicit": (False, True)}
@@ -145,14 +146,17 @@ class _Pristine:
 
     def __enter__(self):
         global _SCRATCH
+        self.prev_state = MODSTATE.current()
         if _SCRATCH is None:
-            _SCRATCH = World(Sim(0))
+            _SCRATCH = World(Sim(0))   # binds its own fresh module state
+        MODSTATE.bind(_SCRATCH.modstate)
         self.prev = self.world.cur_alloc
         self.world.cur_alloc = _SCRATCH.main_alloc
         return self
 
     def __exit__(self, *exc):
         self.world.cur_alloc = self.prev
+        MODSTATE.bind(self.prev_state)
         return False
 
 
@@ -240,7 +244,15 @@ def generate(seed: int, tier: str = "quick") -> Dict[str, Any]:
         if faulty and rng.random() < 0.3:
             ops.append(gen_fault())
         if kind == "sub" or (kind == "mixed" and rng.random() < 0.4):
-            ops.append(c14_sub.gen_op(rng, s))
+            o = c14_sub.gen_op(rng, s)
+            ops.append(o)
+            if o["op"] == "validate" and rng.random() < 0.5:
+                # the same table again under another setting / worker count (history on shared state)
+                o2 = copy.deepcopy(o)
+                o2["s"] = s()
+                o2["ignore_tautomers"] = not o.get("ignore_tautomers", True)
+                o2["n_jobs"] = rng.choice([1, 1, 2, 4])
+                ops.append(o2)
         else:
             c = rng.random()
             if c < 0.12:
